@@ -154,6 +154,8 @@ class TunnelSettings(CommunitySettings):
         properties = {key: kwargs.pop(key) for key in list(kwargs)
                       if isinstance(getattr(type(self), key, None), property)}
         super().__init__(**kwargs)
+        # Every settings object owns its flags: ``settings.peer_flags |= {...}`` would otherwise edit the class default.
+        self._peer_flags = set(self._peer_flags)
         for key, value in properties.items():
             setattr(self, key, value)
 
